@@ -52,7 +52,7 @@ def holds (sm : Bool) (first : Attempt) (sc : Script) (hasRefuse : Bool) (m : Li
 def step (_ : Unit) (fields : List String) (impl : String) : Unit × Reply :=
   match fields with
   | ["script", smf, f, l] =>
-    let sm := smf == "sm"
+    let sm := smf == "sm" || smf == "smtls"   -- `…tls`: the same script over STARTTLS (the model does not distinguish)
     match parseAtt f, parseLives l with
     | some (some first), some (lives, hasRefuse) =>
       let sc : Script := ⟨first, lives⟩
